@@ -259,13 +259,25 @@ var errBudget = fmt.Errorf("scheduler wait budget exceeded")
 // enabled actions at each choice point (for exhaustive enumeration), and
 // labels.
 func runSchedule(t ev.Failer, c *ev.Collector, sc schedCase) (trace []string, fanout []int, interesting bool, err error) {
-	s := newSchedFor(t)
-	defer s.close()
+	s := sharedSched(t)
 	s.setPassthrough(true)
 	setup := s.srv.MustDial()
 	setup.MustDo("SET", "k", "seed", "POINT", "1", "2")
 	setup.Close()
 	s.setPassthrough(false)
+	defer func() {
+		// never leave a goroutine parked behind (a failed case ends early)
+		s.setPassthrough(true)
+		for {
+			select {
+			case a := <-s.arrivals:
+				close(a.release)
+				continue
+			case <-time.After(20 * time.Millisecond):
+			}
+			break
+		}
+	}()
 
 	var conns []*connState
 	for ci, segs := range sc.Conns {
@@ -420,7 +432,17 @@ func runSchedule(t ev.Failer, c *ev.Collector, sc schedCase) (trace []string, fa
 	return trace, fanout, interesting, nil
 }
 
-func newSchedFor(t ev.Failer) *sched { return newSched(t) }
+var theSched *sched
+
+// sharedSched returns the one scheduler/server of this process (every server
+// start leaks descriptors inside tile38, so schedules share a server; markers
+// are unique and connections are per schedule).
+func sharedSched(t ev.Failer) *sched {
+	if theSched == nil {
+		theSched = newSched(t)
+	}
+	return theSched
+}
 
 func indexOf(cs []*connState, c *connState) int {
 	for i, x := range cs {
